@@ -347,7 +347,15 @@ func readHeader(r io.Reader, network bitcoin.Network) (*wire.MessageHeader, erro
 	return result, nil
 }
 
-func readMessage(r io.Reader, header *wire.MessageHeader, msg wire.Message) error {
+func readMessage(r io.Reader, header *wire.MessageHeader, msg wire.Message) (err error) {
+	defer func() {
+		// The payload is controlled by the peer, so a panic while decoding it must only cost this
+		// connection and not the process. This is also called from threads of its own.
+		if pnc := recover(); pnc != nil {
+			err = fmt.Errorf("panic decoding %s : %v", header.CommandString(), pnc)
+		}
+	}()
+
 	// Check for maximum length based on the message type as a malicious client
 	// could otherwise create a well-formed header and set the length to max
 	// numbers in order to exhaust the machine's memory.
